@@ -1,6 +1,6 @@
 (* C18 — the query history file keeps the last N submitted queries in order.
    Statements only; proofs live in proofs/HistoryProofs.v. *)
-From Fzf Require Import Prelude HistorySpec HistoryModel HistoryProofs.
+From Fzf Require Import Prelude HistorySpec HistoryModel HistoryProofs HistoryProcSpec HistoryProcModel HistoryProcProofs.
 Open Scope Z_scope.
 
 (* After ANY sequence of well-formed sessions (each: load; any previous/next/edit steps; submit or not),
@@ -58,3 +58,75 @@ Example c18_nonvacuous :
   Forall session_wf ss /\
   run_sessions_log 2 (Some [120;10;121;10;122;10]) ss = Ok (Some [122;10;98;98;10], [[98;98]; []]).
 Proof. split; [repeat constructor; unfold NL; try discriminate|vm_compute; reflexivity]. Qed.
+
+(* ===== process level: the file as the PROGRAM maintains it (options.go, terminal.go) ===== *)
+
+(* One option list (one of $FZF_DEFAULT_OPTS_FILE, $FZF_DEFAULT_OPTS, the command line), all sizes >= 1:
+   parseOptions ends with exactly what the list asks for - the file of the last --history not followed by
+   --no-history, limited by the last --history-size (default 1000) WHEREVER it stands relative to --history. *)
+Theorem history_options_one_list : forall ws, words_ok ws -> parse_layers None [ws] = Ok (eff_config ws).
+Proof. exact one_list_proof. Qed.
+Print Assumptions history_options_one_list.
+
+(* The three layers of one invocation mean their concatenation, unless a --history-size stands in an EARLIER
+   layer than a --history (layered_ok). *)
+Theorem history_options_layers : forall ls, Forall words_ok ls -> layered_ok false ls = true ->
+  parse_layers None ls = Ok (eff_config (concat ls)).
+Proof. exact layers_proof. Qed.
+Print Assumptions history_options_layers.
+
+(* FINDING (recorded as c17-history-size-layering): the exception is real. *)
+Theorem history_options_layers_refuted :
+  exists p, parse_layers None [[HSize 5]; [HFile p]] = Ok (Some (p, 1000%nat)) /\
+            parse_layers None [[HSize 5; HFile p]] = Ok (Some (p, 5%nat)) /\
+            eff_config (concat [[HSize 5]; [HFile p]]) = Some (p, 5%nat).
+Proof. exact layers_refuted_proof. Qed.
+Print Assumptions history_options_layers_refuted.
+
+(* The endings after which terminal.go appends the query (exit status <= 1, become) are exactly the endings
+   that submit it (everything but abort / a signal). *)
+Theorem endings_record : forall e, records e = submits e.
+Proof. exact endings_record_proof. Qed.
+Print Assumptions endings_record.
+
+(* ANY sequence of runs of the program - each with its own option layers (well-formed as above), any
+   previous/next/edit steps and any ending - over ANY file system: no run fails, each runs under the
+   configuration its options ask for, and EVERY file q afterwards stores what the spec says: run by run, the
+   last n of (entries ++ [query]) if the run was configured for q with limit n, submitted, and the query is
+   non-empty; unchanged otherwise (aborted, empty query, --no-history, another file). *)
+Theorem proc_sessions_keep_last_n : forall ss, Forall psession_wf ss -> forall F,
+  exists F' log, run_psessions_log F ss = Ok (F', log) /\
+    map (fun x => (fst (fst x), snd (fst x))) log = map (fun s => (eff_config (concat (p_layers s)), p_end s)) ss /\
+    forall q, fs_entries (F' q) = fold_left (log_step q) log (fs_entries (F q)).
+Proof. exact proc_sessions_proof. Qed.
+Print Assumptions proc_sessions_keep_last_n.
+
+(* ... and when all runs name the same file p and limit n, p stores the last n of
+   (entries before ++ non-empty queries of the runs that did not abort): the statement of C18. *)
+Theorem proc_sessions_same_config : forall ss p n, (1 <= n)%nat -> Forall psession_wf ss ->
+  Forall (fun s => eff_config (concat (p_layers s)) = Some (p, n)) ss -> forall F,
+  exists F' log, run_psessions_log F ss = Ok (F', log) /\
+    let qs := map (fun x => snd x) (filter (fun x : hcfg * ending * str => submits (snd (fst x))) log) in
+    fs_entries (F' p) = match submitted qs with
+                        | [] => fs_entries (F p)
+                        | _ => stored_after n (fs_entries (F p)) qs
+                        end.
+Proof. exact proc_sessions_same_proof. Qed.
+Print Assumptions proc_sessions_same_config.
+
+(* non-vacuity: size before file in the environment layer, three runs (no match, aborted, matched) under limit 2 *)
+Example c18_proc_nonvacuous :
+  let h := [104] in
+  let run q e := mkP [[HSize 2; HFile h]; [HOther]] [Edit q] e in
+  let ss := [run [122;122] (EndAccept false); run [112] EndAbort; run [97] (EndAccept true)] in
+  Forall psession_wf ss /\
+  Forall (fun s => eff_config (concat (p_layers s)) = Some (h, 2%nat)) ss /\
+  match run_psessions_log (fun q => if str_eqb q h then Some [120;10;121;10] else None) ss with
+  | Ok (F', _) => F' h = Some [122;122;10;97;10]
+  | Err _ => False
+  end.
+Proof.
+  cbn zeta. split; [|split; [|vm_compute; reflexivity]].
+  - repeat constructor; unfold NL; discriminate.
+  - repeat constructor.
+Qed.
